@@ -394,6 +394,13 @@ def add_bench(m, path, indent, raw_name, form="plain", args=None, types=None, co
             # 64-byte allocation happens before the start, the output is dropped after the end
             inner = ("bencher.with_inputs(|| vec![1u8; 64]).bench_refs(|v| { crate::rt::quiet(%d); let mut w: Vec<u8> = Vec::with_capacity(32); "
                      "w.extend_from_slice(&v[..8]); w });" % bid)
+        elif style == "values_free_only":
+            # timed: exactly one deallocation (64 bytes) per iteration and nothing else: the peak stays zero
+            inner = ("bencher.with_inputs(|| Vec::<u8>::with_capacity(64)).bench_values(|v| { crate::rt::quiet(%d); drop(v); });" % bid)
+        elif style == "refs_shrink_only":
+            # timed: exactly one shrinking reallocation (64 -> 8 bytes) per iteration
+            inner = ("bencher.with_inputs(|| { let mut v = Vec::<u8>::with_capacity(64); v.extend_from_slice(&[1u8; 8]); v })"
+                     ".bench_refs(|v| { crate::rt::quiet(%d); v.shrink_to_fit(); });" % bid)
         elif style == "counter":
             inner = "bencher.counter(divan::counter::ItemsCount::new(7u32)).bench(|| { %s; });" % call
         else:
